@@ -296,6 +296,14 @@ RECURSIVE JoinDots(_)
 JoinDots(p) == IF Len(p) = 0 THEN "" ELSE IF Len(p) = 1 THEN p[1] ELSE p[1] \o "." \o JoinDots(Tail(p))
 CtxOf(env) == IF "#ctx" \in DOMAIN env THEN env["#ctx"].cps ELSE <<>>
 
+\* user functions live in env under "#fn:<name>" as [t |-> "fn", params, body];
+\* env["#depth"] is the evaluation depth (rule productions, function bodies and
+\* asm blocks each go one level deeper; at MaxEvalDepth a call is an error)
+BuiltinNames == {"assert", "sizeof", "le", "strlen", "ascii", "utf8", "utf16be", "utf16le", "utf32be", "utf32le"}
+FnKey(name) == "#fn:" \o name
+MaxEvalDepth == 25
+DepthOf(env) == IF "#depth" \in DOMAIN env THEN env["#depth"].v ELSE 0
+
 Bind(env, name, v) == [x \in DOMAIN env \cup {name} |-> IF x = name THEN v ELSE env[x]]
 
 R(v, env) == [v |-> v, env |-> env]
@@ -375,7 +383,19 @@ Eval(e, env) ==
             IF Propagates(x.v) THEN x ELSE R(VoidV, Bind(x.env, e.name, x.v))
       [] e.k = "call" ->
             LET a == EvalArgs(e.args, 1, env, <<>>) IN
-            IF ~a.ok THEN R(a.v, a.env) ELSE R(Builtin(e.f, a.vs), a.env)
+            IF ~a.ok THEN R(a.v, a.env)
+            ELSE IF e.f \in BuiltinNames THEN R(Builtin(e.f, a.vs), a.env)
+            ELSE IF FnKey(e.f) \notin DOMAIN env THEN R(ErrV, a.env)
+            ELSE \* a user-defined function: its body evaluated with the arguments bound to
+                 \* the parameters, one level deeper (the depth limit makes recursion an error)
+                 LET f == env[FnKey(e.f)] IN
+                 IF Len(f.params) # Len(a.vs) \/ DepthOf(env) >= MaxEvalDepth THEN R(ErrV, a.env)
+                 ELSE LET inner == [x \in DOMAIN env \cup {f.params[i] : i \in 1..Len(f.params)} \cup {"#depth"} |->
+                                       IF x = "#depth" THEN IntV(DepthOf(env) + 1, -1)
+                                       ELSE IF \E i \in 1..Len(f.params) : f.params[i] = x
+                                       THEN a.vs[CHOOSE i \in 1..Len(f.params) : f.params[i] = x]
+                                       ELSE env[x]]
+                      IN R(Eval(f.body, inner).v, a.env)
       [] OTHER -> R(ErrV, env)
 
 (***************************************************************************)
